@@ -430,7 +430,18 @@ func (s *ImmuServer) ChangePermission(ctx context.Context, r *schema.ChangePermi
 
 	// the target user is not handed over to whoever changes its permissions on one database:
 	// its creator (or the system admin) stays the only one entitled to change its password or status
-	targetUser.SQLPrivileges = defaultSQLPrivilegesForPermission(r.Database, r.Permission)
+	// only the SQL privileges on the database the request names follow the change: those the user holds on other
+	// databases are not the caller's to touch
+	sqlPrivileges := make([]auth.SQLPrivilege, 0, len(targetUser.SQLPrivileges))
+	for _, p := range targetUser.SQLPrivileges {
+		if p.Database != r.Database {
+			sqlPrivileges = append(sqlPrivileges, p)
+		}
+	}
+	if r.Action != schema.PermissionAction_REVOKE {
+		sqlPrivileges = append(sqlPrivileges, defaultSQLPrivilegesForPermission(r.Database, r.Permission)...)
+	}
+	targetUser.SQLPrivileges = sqlPrivileges
 	targetUser.HasPrivileges = true
 
 	if err := s.saveUser(ctx, targetUser); err != nil {
